@@ -15,7 +15,7 @@ from .common import tup, type_tag, shrink_doc, chunks
 
 ID = "C02"
 RULE = (
-    "T: all ordered pairs of a 27-value universe (absent, every JSON type, int/float/bool look-alikes, nested containers) "
+    "T: all ordered pairs of a 33-value universe (absent, every JSON type, int/float/bool look-alikes, nested containers) "
     "x 6 operators x operand forms (literal, @.x, $.x, value(@.x)); E: every atom (existence tests, comparisons over a "
     "21-comparable alphabet x 6 operators, match/search over a pattern pool) alone, under ! and parentheses, and every "
     "&&/|| tree over 12 representative atoms to connective depth 2 (3); S: blanks at every S position. "
@@ -30,7 +30,9 @@ ASSUMPTIONS = [
 
 ABSENT = ("<absent>",)
 U = [ABSENT, None, True, False, 0, 1, 1.0, 2, 1.5, "", "a", "b", "1", "true", [], [1], [True], [1.0], [[1]], [[True]],
-     {}, {"a": 1}, {"a": True}, {"a": 1.0}, {"b": 1}, {"a": 1, "b": 2}, {"b": 2, "a": 1}]
+     {}, {"a": 1}, {"a": True}, {"a": 1.0}, {"b": 1}, {"a": 1, "b": 2}, {"b": 2, "a": 1},
+     # absent member vs member holding null, also under nesting
+     {"a": None}, {"b": None}, [None], {"a": {"a": None}}, {"a": {"b": None}}, {"a": None, "b": 1}]
 OPS = ["==", "!=", "<", "<=", ">", ">="]
 
 KIDS = [None, True, False, 0, 1, 2, 1.5, "", "a", "ab", "b", [], [1], [0, 2], ["a"], {}, {"a": 1}, {"a": "ab", "b": 2},
@@ -165,7 +167,7 @@ def trees(tier):
 
 
 def bounds(tier, seed):
-    return {"table": "27^2 pairs x 6 ops x forms", "atoms": len(all_atoms()), "trees": len(trees(tier)),
+    return {"table": "%d^2 pairs x 6 ops x forms" % len(U), "atoms": len(all_atoms()), "trees": len(trees(tier)),
             "spelling_blanks": 1 if tier == "quick" else 2}
 
 
